@@ -52,6 +52,9 @@ Lemma rb_getc {B} c (f : N -> reader B) R : rbind getc f (c :: R) = f c R.
 Proof. reflexivity. Qed.
 Lemma rb_ret {A B} (a : A) (f : A -> reader B) R : rbind (rret a) f R = f a R.
 Proof. reflexivity. Qed.
+Lemma rb_assoc {A B C} (r : reader A) (f : A -> reader B) (g : B -> reader C) l :
+  rbind (rbind r f) g l = rbind r (fun a => rbind (f a) g) l.
+Proof. unfold rbind. destruct (r l) as [[a rest]| |]; reflexivity. Qed.
 Lemma rb_take {B} n l (f : list N -> reader B) R : nlen l = n -> rbind (take n) f (l ++ R) = f l R.
 Proof. intros <-. unfold rbind, nlen. rewrite take_app. reflexivity. Qed.
 
@@ -534,5 +537,215 @@ Proof.
     rewrite Hm. reflexivity.
   - destruct (flag_bits (info_bad i) (info_rehash i) (info_justsynced i)) as [F0 [F1 [F2 [F3 F4]]]].
     rewrite <- !app_assoc. rewrite rb_b32 by exact F4. rewrite F0. cbv iota.
+    rewrite rb_assoc. rewrite rb_b32 by (apply info_wtime_lt; exact Hi).
+    rewrite F1, F2, F3.
+    assert (Hp : (info_rehash i && (c_prevhash s =? H_UNDEF)) = false).
+    { destruct (info_rehash i) eqn:Er; [|reflexivity]. cbn [andb]. apply N.eqb_neq. apply Hre. reflexivity. }
+    rewrite Hp. rewrite rb_ret.
+    destruct (N.leb_spec 4294967296 (v_pos + nlen (i :: t))) as [H|_]; [change 4294967296 with (2^32) in H; lia|].
+    assert (Hni : norm_info now oldest i = info_make (info_wtime now oldest i + oldest) (info_bad i) (info_rehash i) (info_justsynced i)).
+    { unfold norm_info. destruct (N.eqb_spec i 0); [contradiction|]. rewrite u32_small by (apply info_wtime_lt; exact Hi). reflexivity. }
+    rewrite <- Hni.
+    destruct (N.eqb_spec (norm_info now oldest i) 0) as [Ez|_].
+    + rewrite (Hreq Ez). cbn [andb]. rewrite Hm. reflexivity.
+    + cbn [andb]. rewrite Hm. reflexivity.
+Qed.
+
+Lemma enc_info_run_nonempty now oldest g : g <> [] -> enc_info_run now oldest g <> [].
+Proof.
+  destruct g as [|i t]; [contradiction|]. intros _. unfold enc_info_run, sputb32.
+  destruct (putb 5 (nlen (i :: t) mod 2^32)) eqn:E; [exfalso; revert E; apply putb_nonempty|discriminate].
+Qed.
+
+Lemma nth_const i : forall (t : list N) n, Forall (fun x => x = i) t -> (n < length t)%nat -> nth n t 0 = i.
+Proof.
+  induction t as [|x t IH]; intros n H Hn; [cbn in Hn; lia|]. destruct n; [exact (Forall_inv H)|].
+  cbn. apply IH; [exact (Forall_inv_tail H)|cbn in Hn; lia].
+Qed.
+
+Lemma existsb_false_intro {A} (p : A -> bool) l : (forall x, In x l -> p x = false) -> existsb p l = false.
+Proof.
+  induction l as [|x l IH]; intros H; [reflexivity|]. cbn. rewrite (H x (or_introl eq_refl)). apply IH.
+  intros y Hy. apply H. right. exact Hy.
+Qed.
+
+(* all the runs of the 'i' record; blocks with state BLK sit where the normalised info is not zero *)
+Lemma read_info_all s bm now oldest : bm < 2^32 -> oldest < 2^32 -> forall gs,
+  Forall (group_ok info_rel) gs -> Forall (Forall (info_ok s)) gs ->
+  forall f v_pos acc R, (length gs <= f)%nat -> v_pos + nlen (concat gs) = bm ->
+  (forall b, In b (all_blocks s) -> cb_state b = BLK -> v_pos <= cb_pos b -> cb_pos b < bm ->
+             norm_info now oldest (nth (N.to_nat (cb_pos b - v_pos)) (concat gs) 0) <> 0) ->
+  read_info f s bm oldest v_pos acc (concat (map (enc_info_run now oldest) gs) ++ R)
+  = Ok (acc ++ map (norm_info now oldest) (concat gs), R).
+Proof.
+  intros Hbm Hold. induction gs as [|g gs IH]; intros Hg Hok f v_pos acc R Hf Hsum Hblk.
+  - cbn [concat map app] in *. unfold nlen in Hsum. cbn in Hsum.
+    destruct f; cbn [read_info]; (destruct (N.leb_spec bm v_pos) as [_|H]; [|lia]); rewrite app_nil_r; reflexivity.
+  - pose proof (Forall_inv Hg) as Hg1. pose proof (Forall_inv_tail Hg). pose proof (Forall_inv Hok). pose proof (Forall_inv_tail Hok).
+    destruct f as [|f]; [cbn in Hf; lia|].
+    cbn [concat map]. rewrite <- app_assoc. cbn [concat] in Hsum. rewrite nlen_app in Hsum.
+    rewrite read_info_step; try assumption; try lia.
+    + rewrite IH; try assumption; [|cbn in Hf; lia|lia|].
+      * rewrite map_app, <- app_assoc. reflexivity.
+      * intros b Hb Hs Hlo Hhi. specialize (Hblk b Hb Hs ltac:(lia) Hhi).
+        cbn [concat] in Hblk. rewrite app_nth2 in Hblk by (unfold nlen in *; lia).
+        replace (N.to_nat (cb_pos b - v_pos) - length g)%nat with (N.to_nat (cb_pos b - (v_pos + nlen g))) in Hblk by (unfold nlen in *; lia).
+        exact Hblk.
+    + intros Hz. unfold info_required_in. apply existsb_false_intro. intros b Hb.
+      destruct (N.eqb_spec (cb_state b) BLK) as [Es|_]; [|reflexivity]. cbn [andb].
+      destruct (N.leb_spec v_pos (cb_pos b)) as [Hlo|_]; [|reflexivity]. cbn [andb].
+      destruct (N.ltb_spec (cb_pos b) (v_pos + nlen g)) as [Hhi|_]; [|reflexivity].
+      exfalso. apply (Hblk b Hb Es Hlo ltac:(lia)).
+      cbn [concat]. rewrite app_nth1 by (unfold nlen in *; lia).
+      destruct g as [|i t]; [contradiction|]. cbn [group_ok] in Hg1. cbn [hd] in Hz.
+      rewrite (nth_const i (i :: t)); [exact Hz| |unfold nlen in *; lia].
+      constructor; [reflexivity|apply (info_run_const i t 1 Hg1)].
+Qed.
+
+(* ---- small list facts ---- *)
+Lemma bytes_eqb_eq a : forall b, bytes_eqb a b = true <-> a = b.
+Proof.
+  induction a as [|x a IH]; intros [|y b]; cbn; try (split; [discriminate|discriminate]); [tauto|].
+  rewrite andb_true_iff, N.eqb_eq, IH. split; [intros [-> ->]; reflexivity|intros E; injection E; auto].
+Qed.
+Lemma bytes_eqb_refl a : bytes_eqb a a = true.
+Proof. apply bytes_eqb_eq. reflexivity. Qed.
+
+Lemma upd_app_len {A} (f : A -> A) (pre : list A) x post : upd (length pre) f (pre ++ x :: post) = pre ++ f x :: post.
+Proof. induction pre as [|y pre IH]; [reflexivity|]. cbn. rewrite IH. reflexivity. Qed.
+
+Lemma nth_app_len {A} (pre : list A) x post dflt : nth (length pre) (pre ++ x :: post) dflt = x.
+Proof. induction pre as [|y pre IH]; [reflexivity|]. cbn. exact IH. Qed.
+
+Lemma set_disks_id s : set_disks s (c_disks s) = s.
+Proof. destruct s; reflexivity. Qed.
+Lemma with_st_id d : with_st d (d_st d) = d.
+Proof. destruct d; reflexivity. Qed.
+
+(* ---- 'z' 'x' 'y' 'c' 'C' ---- *)
+Lemma rec_blocksize_reads k d R : k_no_conf k = false -> c_block_size (d_st d) <> 0 -> c_block_size (d_st d) < 2^32 ->
+  rec_blocksize k d (sputb32 (c_block_size (d_st d)) ++ R) = Ok (d, R).
+Proof.
+  intros Hk H0 H1. unfold rec_blocksize. rewrite rb_b32 by exact H1.
+  destruct (N.eqb_spec (c_block_size (d_st d)) 0) as [E|_]; [contradiction|]. rewrite Hk, N.eqb_refl.
+  unfold rret. rewrite with_st_id. reflexivity.
+Qed.
+
+Lemma rec_hashsize_reads k d R : k_no_conf k = false -> 2 <= c_hash_size (d_st d) <= 16 ->
+  rec_hashsize k d (sputb32 (c_hash_size (d_st d)) ++ R) = Ok (d, R).
+Proof.
+  intros Hk [H0 H1]. unfold rec_hashsize. rewrite rb_b32 by (change (2^32) with 4294967296; lia).
+  destruct (N.ltb_spec (c_hash_size (d_st d)) 2) as [E|_]; [lia|]. unfold HASH_MAX.
+  destruct (N.ltb_spec 16 (c_hash_size (d_st d))) as [E|_]; [lia|]. cbn [orb]. rewrite Hk, N.eqb_refl.
+  unfold rret. rewrite with_st_id. reflexivity.
+Qed.
+
+Lemma rec_blockmax_reads d bm R : bm < 2^32 ->
+  rec_blockmax d (sputb32 bm ++ R) = Ok ({| d_st := d_st d; d_blockmax := bm; d_mapping := d_mapping d; d_crc := d_crc d |}, R).
+Proof. intros H. unfold rec_blockmax. rewrite rb_b32 by exact H. reflexivity. Qed.
+
+Definition hash_ok (h : N) : Prop := h = H_MURMUR3 \/ h = H_SPOOKY2 \/ h = H_METRO.
+Lemma hash_char_of h : hash_ok h -> exists c, hash_char h = [c] /\ hash_of c = Some h.
+Proof. intros [-> | [-> | ->]]; [exists 117 | exists 107 | exists 109]; split; reflexivity. Qed.
+
+Lemma rec_hash_reads prev d h seed R : hash_ok h -> nlen seed = 16 ->
+  rec_hash prev d (hash_char h ++ seed ++ R)
+  = Ok (with_st d (if prev then set_prevhash (d_st d) h seed else set_hash (d_st d) h seed), R).
+Proof.
+  intros Hh Hs. destruct (hash_char_of h Hh) as [c [Ec Eo]]. rewrite Ec. cbn [app]. unfold rec_hash.
+  rewrite rb_getc, Eo. rewrite rb_take by exact Hs. reflexivity.
+Qed.
+
+(* ---- 'M' ---- *)
+Definition map_fields_ok (m : cmap) : Prop :=
+  str_ok PATH_MAX (cm_name m) /\ cm_pos m < 2^32 /\ cm_total m < 2^32 /\ cm_free m < 2^32 /\ str_ok UUID_MAX (cm_uuid m).
+Definition enc_map_body (m : cmap) : list N :=
+  sputbs (cm_name m) ++ sputb32 (cm_pos m) ++ sputb32 (cm_total m) ++ sputb32 (cm_free m) ++ sputbs (cm_uuid m).
+Lemma map_eta m : {| cm_name := cm_name m; cm_pos := cm_pos m; cm_total := cm_total m; cm_free := cm_free m; cm_uuid := cm_uuid m |} = m.
+Proof. destruct m; reflexivity. Qed.
+
+Lemma find_idx_nth {A} (p : A -> bool) (l : list A) i dflt : find_idx p l = Some i -> p (nth i l dflt) = true /\ (i < length l)%nat.
+Proof.
+  revert i. induction l as [|x l IH]; intros i H; [discriminate|]. cbn in H.
+  destruct (p x) eqn:E.
+  - injection H as <-. cbn. split; [exact E|lia].
+  - destruct (find_idx p l) as [k|]; [|discriminate]. injection H as <-. destruct (IH k eq_refl) as [H1 H2].
+    cbn. split; [exact H1|lia].
+Qed.
+
+Lemma rec_map_reads k d m di R : map_fields_ok m ->
+  find_idx (fun x => bytes_eqb (cd_name x) (cm_name m)) (c_disks (d_st d)) = Some di ->
+  rec_map k 77 d (enc_map_body m ++ R)
+  = Ok ({| d_st := set_maps (d_st d) (c_maps (d_st d) ++ [m]); d_blockmax := d_blockmax d;
+           d_mapping := d_mapping d ++ [di]; d_crc := d_crc d |}, R).
+Proof.
+  intros [[Hc1 Hl1] [Hp [Ht [Hf [Hc2 Hl2]]]]] Hfind. unfold rec_map, enc_map_body. rewrite <- !app_assoc.
+  rewrite rb_str by (exact Hl1 || exact path_max_lt || exact Hc1).
+  rewrite rb_b32 by exact Hp. change (77 =? 77) with true. cbv iota.
+  rewrite !rb_assoc. rewrite rb_b32 by exact Ht. rewrite rb_assoc. rewrite rb_b32 by exact Hf. rewrite rb_ret.
+  rewrite rb_str by (exact Hl2 || exact uuid_max_lt || exact Hc2).
+  unfold find_disk. rewrite Hfind. cbn [fst snd]. unfold rret.
+  destruct (find_idx_nth _ _ _ (empty_disk []) Hfind) as [Hn _]. apply bytes_eqb_eq in Hn. rewrite Hn.
+  rewrite set_disks_id, map_eta. reflexivity.
+Qed.
+
+(* ---- 'P' and 'Q' ---- *)
+Definition split_ok (x : csplit) : Prop := str_ok PATH_MAX (cs_path x) /\ str_ok UUID_MAX (cs_uuid x) /\ cs_size x < 2^64.
+Lemma split_eta x : {| cs_path := cs_path x; cs_uuid := cs_uuid x; cs_size := cs_size x |} = x.
+Proof. destruct x; reflexivity. Qed.
+Lemma parity_eta p : {| cp_total := cp_total p; cp_free := cp_free p; cp_splits := cp_splits p |} = p.
+Proof. destruct p; reflexivity. Qed.
+
+Lemma enc_split_nonempty x : enc_split x <> [].
+Proof.
+  unfold enc_split, sputbs, sputb32. destruct (putb 5 _) eqn:E; [exfalso; revert E; apply putb_nonempty|discriminate].
+Qed.
+
+Lemma read_splits_all k mac : k_no_conf k = false -> forall xs done todo f R,
+  map cs_path todo = map cs_path xs -> Forall split_ok xs -> nlen done + nlen xs = mac -> (length xs <= f)%nat ->
+  read_splits f k true mac (nlen done) (done ++ todo) (concat (map enc_split xs) ++ R) = Ok (done ++ xs, R).
+Proof.
+  intros Hk. induction xs as [|x xs IH]; intros done todo f R Hp Hok Hm Hf.
+  - destruct todo; [|discriminate]. unfold nlen in Hm. cbn in Hm. rewrite N.add_0_r in Hm.
+    destruct f; cbn [read_splits]; (destruct (N.leb_spec mac (nlen done)) as [_|H]; [|unfold nlen in *; lia]); reflexivity.
+  - destruct todo as [|c0 todo]; [discriminate|]. cbn [map] in Hp. injection Hp as Hp0 Hp.
+    pose proof (Forall_inv Hok) as [[Hc1 Hl1] [[Hc2 Hl2] Hsz]]. pose proof (Forall_inv_tail Hok) as Hok'.
+    destruct f as [|f]; [cbn in Hf; lia|]. rewrite nlen_cons in Hm.
+    cbn [read_splits]. destruct (N.leb_spec mac (nlen done)) as [H|_]; [lia|].
+    cbn [concat map]. unfold enc_split at 1. rewrite <- !app_assoc.
+    rewrite rb_str by (exact Hl1 || exact path_max_lt || exact Hc1).
+    rewrite rb_str by (exact Hl2 || exact uuid_max_lt || exact Hc2).
+    rewrite rb_b64 by exact Hsz.
+    destruct (N.leb_spec (nlen (done ++ c0 :: todo)) (nlen done)) as [H|_]; [rewrite nlen_app, nlen_cons in H; lia|].
+    unfold nlen at 2. rewrite Nat2N.id, upd_app_len. rewrite Hk, Hp0, split_eta.
+    replace (nlen done + 1) with (nlen (done ++ [x])) by (rewrite nlen_app; reflexivity).
+    replace (done ++ x :: todo) with ((done ++ [x]) ++ todo) by (rewrite <- app_assoc; reflexivity).
+    rewrite IH; [rewrite <- app_assoc; reflexivity|exact Hp|exact Hok'|rewrite nlen_app; unfold nlen at 2; cbn [length]; lia|cbn in Hf; lia].
+Qed.
+
+Definition parity_ok (p : cparity) : Prop :=
+  cp_total p < 2^32 /\ cp_free p < 2^32 /\ 1 <= nlen (cp_splits p) /\ nlen (cp_splits p) < 2^32 /\ Forall split_ok (cp_splits p).
+
+Definition enc_Q_body (l : N) (p : cparity) : list N :=
+  sputb32 l ++ sputb32 (cp_total p) ++ sputb32 (cp_free p) ++ sputb32 (nlen (cp_splits p)) ++ concat (map enc_split (cp_splits p)).
+Definition enc_P_body (l : N) (p : cparity) : list N :=
+  sputb32 l ++ sputb32 (cp_total p) ++ sputb32 (cp_free p) ++ sputbs (cs_uuid (hd dflt_split (cp_splits p))).
+Lemma enc_parity_eq v l p : enc_parity v l p = if v =? 3 then 81 :: enc_Q_body l p else 80 :: enc_P_body l p.
+Proof. unfold enc_parity. destruct (v =? 3); reflexivity. Qed.
+
+Lemma rec_Q_reads k d p c pre post R :
+  k_no_conf k = false -> c_parity (d_st d) = pre ++ c :: post -> nlen pre < LEV_MAX -> parity_ok p ->
+  map cs_path (cp_splits c) = map cs_path (cp_splits p) ->
+  rec_parity_Q k d (enc_Q_body (nlen pre) p ++ R) = Ok (with_st d (set_parity (d_st d) (pre ++ p :: post)), R).
+Proof.
+  intros Hk Hpl Hlev [Ht [Hf [Hs1 [Hs2 Hsp]]]] Hpath. unfold rec_parity_Q, enc_Q_body. rewrite <- !app_assoc.
+  assert (Hl32 : nlen pre < 2^32) by (unfold LEV_MAX in Hlev; change (2^32) with 4294967296; lia).
+  rewrite rb_b32 by exact Hl32. rewrite rb_b32 by exact Ht. rewrite rb_b32 by exact Hf. rewrite rb_b32 by exact Hs2.
+  destruct (N.leb_spec LEV_MAX (nlen pre)) as [H|_]; [lia|]. rewrite Hk. cbn [andb].
+  unfold grow_levels. rewrite Hk. cbn [andb]. rewrite Hpl.
+  destruct (N.ltb_spec (nlen pre) (nlen (pre ++ c :: post))) as [_|H]; [|rewrite nlen_app, nlen_cons in H; lia].
+  unfold nlen at 1 2. rewrite !Nat2N.id, nth_app_len.
+  unfold rbind at 1.
+  rewrite (read_splits_all k (nlen (cp_splits p)) Hk (cp_splits p) [] (cp_splits c) _ R Hpath Hsp).
   Show.
 Abort.
